@@ -90,12 +90,13 @@ type R1 struct {
 	HCalls          int
 	FailAt          int // 0 = never
 	Depth           int
+	MaxDepth        int
 	running         []string // names of the closures being executed
 	AllowSelfShadow bool
 }
 
 func NewR1() *R1 {
-	r := &R1{Global: NewScope(nil), Fuel: 200000, Hosts: map[string]Host{}}
+	r := &R1{Global: NewScope(nil), Fuel: 200000, MaxDepth: 400, Hosts: map[string]Host{}}
 	for _, b := range []string{"+", "-", "*", "/", "mod", "<", ">", "<=", ">=", "==", "!=", "not", "concat", "array", "aget", "aset", "list",
 		"first", "rest", "second", "cons", "len", "append", "hash", "hget", "hset", "str", "map", "apply", "force", "substitute"} {
 		r.Global.Vars[b] = VBuiltin(b)
@@ -370,7 +371,7 @@ func (f *VClos) isLazy(i int) bool {
 func (r *R1) applyClos(f *VClos, vals []V) (V, *ctl) {
 	r.Depth++
 	defer func() { r.Depth-- }()
-	if r.Depth > 400 {
+	if r.Depth > r.MaxDepth {
 		panic(Unmodelled{"recursion depth"})
 	}
 	n := len(f.Params)
